@@ -173,11 +173,9 @@ structure NumMatch where
   frac : Option (List Char)
 deriving DecidableEq, Repr
 
-/-- the text NUMBER matches at `rest` (`pw`: the previous character is a word character); `fracPart`
-is the optional group `(\.?\d+)?` tried right after the greedy `\d+`.
-Greedy `\d+`; the optional group succeeds only as `.` digits followed by a boundary (with an empty
-`\.?` the inner `\d+` finds no digit left, with fewer digits taken the final `\b` falls between two
-word characters); without the group the final `\b` needs a non-word character (or the end). -/
+/-- the optional group `(\.?\d+)?` tried right after the greedy `\d+` (`after` = the text behind the
+digits): it succeeds only as `.` digits followed by a boundary - with an empty `\.?` the inner `\d+` finds no
+digit left, with fewer digits taken the final `\b` would fall between two word characters -/
 def fracPart (cc : CharCfg) (after : List Char) : Option (List Char) :=
   match after with
   | c :: a2 =>
@@ -187,6 +185,9 @@ def fracPart (cc : CharCfg) (after : List Char) : Option (List Char) :=
       else none
   | [] => none
 
+/-- the text NUMBER matches at `rest` (`pw`: the previous character is a word character, then the leading
+`\b` fails). Greedy `\d+`, then `fracPart`; without the group the final `\b` needs a non-word character
+(or the end) behind the digits - taking fewer digits never helps, a digit is a word character. -/
 def matchNumber (cc : CharCfg) (pw : Bool) (rest : List Char) : Option NumMatch :=
   if pw then none else
   let d1 := rest.takeWhile cc.isDigit
